@@ -73,12 +73,14 @@ def c01_sigs(schema, doc, op=None):
                     direct.add(s.key)
             else:
                 flat.append(_keys_of(schema, frags, s) - {"__typename"})
+        # (serde hands a shared key to the first flattened member only; the others then fail or lose *all*
+        # their keys, so every key of the members involved is explained by this finding)
         for i, ks in enumerate(flat):
             if ks & direct:
-                flag("sibling_flattened_selections_share_response_key", path, ks & direct)
+                flag("sibling_flattened_selections_share_response_key", path, ks | (ks & direct))
             for ks2 in flat[i + 1:]:
                 if ks & ks2:
-                    flag("sibling_flattened_selections_share_response_key", path, ks & ks2)
+                    flag("sibling_flattened_selections_share_response_key", path, ks | ks2)
         for s in sel:
             if isinstance(s, Spread) and s.name in frags:
                 if kind == "OBJECT" and frags[s.name].on != parent:
